@@ -41,7 +41,7 @@ SPEC = Spec(
     ],
     rule="corpus of the 10 C09 topologies first, then random service configurations from the C09 generator (1-6 pipelines over "
          "1-4 signals, connectors with random support matrices, cyclic/unsupported variants) plus 0-4 extensions with Dependencies() "
-         "(85% acyclic, 10% arbitrary, 5% missing dependency), 30% a receiver shared across signals through the real "
+         "(85% acyclic, 10% arbitrary, 5% missing dependency; ~25% of the non-empty service::extensions lists repeat one or two ids, adjacent or not), 30% a receiver shared across signals through the real "
          "internal/sharedcomponent, 30% 1-2 injected Start failures, 30% 1-2 injected Shutdown failures (any component, extension or "
          "shared inner). Real service.New -> Start -> Shutdown driven as otelcol/collector.go does (Shutdown once, also after a failed "
          "Start); the lifecycle log is monitored by the Lean checker C10.check. non-trivial = has a connector, an extension dependency, "
